@@ -146,7 +146,7 @@ prop('C03',
                  'sensitivities is that score.')
 
 prop('C05',
-     [ndim.r05_1, popmodels.r05_2, popmodels.r05_5, popmodels.r17_4, cursors.r05_4, layout.r05_3, layout.r05_6, contracts.r05_7, contracts.r05_8,
+     [ndim.r05_1, popmodels.r05_2, popmodels.r05_5, popmodels.r17_4, cursors.r05_4, layout.r05_3, layout.r05_6, contracts.r05_7, contracts.r05_8, popmodels.r05_9,
       reduced.r08_2],
      undecided=['numerical values at boundary points', '-inf vs nan'],
      assumptions=TERM_ASSUME,
